@@ -108,6 +108,7 @@ func (c *RepoCacheIdentity) finishIdentity(i *identity.Identity, metadata map[st
 
 	c.mu.Lock()
 	if _, has := c.cached[i.Id()]; has {
+		c.mu.Unlock()
 		return nil, fmt.Errorf("identity %s already exist in the cache", i.Id())
 	}
 
